@@ -956,10 +956,13 @@ TOKENS = [
     '"a"', "'c'", "''", '""', '"/:C.k=1"', '"//h/n:C.k=\\"v\\""', 'k=1',
     'k="a"', ',k2=2', '%', '-', '_', '\xc9', '\u01c5', '\xdf', '\u0130',
     '\u0969', '\U0001D7D8', '\u0f33', '\u00bd', '\u2460',
+    # text that is dangerous inside str.format()/%-formatted messages
+    '{}', '{0}', '{1}', '{x}', '{', '}', '{0!A}', '{{', '%s', '%(x)s',
+    'C.{}', 'k={1},',
 ]
 
 VALS = [
-    '1', '0', '-0', '+1', '00', '007', '08', '0x', '0xFF', '0XABCDEFG', '1b',
+    '{}', '{1}', '"{x}"', '"a.{b}.c"', '%s', '1', '0', '-0', '+1', '00', '007', '08', '0x', '0xFF', '0XABCDEFG', '1b',
     '2b', '-101B', '1.5', '-1.5', '.5', '1.', '1e5', '1.0e5', '1.0E+5',
     '1.0e', '1.0e+', 'INF', '-INF', '+INF', 'inf', 'NaN', 'nan', '-NaN',
     'TRUE', 'true', 'False', 'T', 'null', 'NULL', '\uff11\uff12',
